@@ -926,3 +926,611 @@ Proof.
       pose proof (encode_pos Vb (VN (len P))). cbn [encode valN] in H. lia. }
     rewrite Ec. rewrite (run_dec_cons _ _ _ _ D2), (run_dec_cons _ _ _ _ D3). reflexivity.
 Qed.
+
+(* ------------------------------------------------------------------ *)
+(* DISCONNECT and AUTH: optional reason code, then a property section *)
+Section ReasonSection.
+  Variable k : kind.
+  Variable m : list entry.
+  Let props := section_encs m false NoSub.
+  Let rbody := [EFill (M F_reasonCode) U8; EVbLen props] ++ props.
+  Let vh := [EIfEmpty props [EIf (CIsZero (M F_reasonCode)) [] rbody] rbody].
+  Hypothesis Hbody : body_of k = Some vh.
+  Hypothesis Hdec_of : dec_of k = [DGet (M F_reasonCode) U8; DGetAny m false NoSub].
+  Hypothesis Hmap : forallb (entry_okb false) m = true /\ nodupb_N (map eid m) = true /\ nodup_refs m = true.
+  Hypothesis Hnorc : forallb (fun e => negb (fref_eqb (M F_reasonCode) (eref e))) m = true.
+  Hypothesis Hnofx : forallb (fun e => negb (fref_eqb (M F_fixed) (eref e))) m = true.
+
+  Lemma reason_section p fresh :
+    fresh = setf (M F_fixed) (VN (getN (M F_fixed) p)) zero_pkt ->
+    fields_valid ((M F_reasonCode, U8) :: refs_of m) p -> Forall up_ok (uprops p) -> remaining_ok k p ->
+    exists body p',
+      run_enc vh p = Some body
+      /\ match body with [] => p' = fresh | _ => unmarshal k fresh body = UOk p' end
+      /\ Forall (fun rw => vagree (fst rw) (snd rw) p p') ((M F_fixed, U8) :: (M F_reasonCode, U8) :: refs_of m)
+      /\ uprops p' = uprops p.
+  Proof.
+    intros Hfresh Hf Hups Hsize.
+    destruct Hmap as [Hm1 [Hm2 Hm3]].
+    assert (Hrc : valid_val U8 (getf (M F_reasonCode) p)) by (inversion Hf; assumption).
+    assert (Hm : fields_valid (refs_of m) p) by (inversion Hf; assumption).
+    assert (Hok : Forall (entry_ok p) m) by (apply (entries_ok false); [exact Hm1|discriminate|exact Hm]).
+    set (P := section_bytes m false NoSub p).
+    assert (EP : run_enc props p = Some P) by (apply (run_enc_section m false NoSub p Hok); discriminate).
+    set (rc := getf (M F_reasonCode) p) in *.
+    assert (Erb : run_enc rbody p = Some (encode U8 rc ++ enc_vb (len P) ++ P)).
+    { unfold rbody. rewrite run_enc_app, EP. cbn [run_enc]. rewrite run_enc1_vblen, EP.
+      cbn [run_enc1 getf_opt option_map opt_app]. rewrite ?app_nil_r, <- ?app_assoc. reflexivity. }
+    assert (Efix : canon U8 (getf (M F_fixed) fresh) = canon U8 (getf (M F_fixed) p)).
+    { rewrite Hfresh. reflexivity. }
+    assert (Evh : run_enc vh p =
+      Some (match P with
+            | [] => if valN rc =? 0 then [] else encode U8 rc ++ enc_vb (len P) ++ P
+            | _ => encode U8 rc ++ enc_vb (len P) ++ P end)).
+    { unfold vh. cbn [run_enc]. rewrite run_enc1_ifempty, EP.
+      assert (E1 : run_enc [EIf (CIsZero (M F_reasonCode)) [] rbody] p =
+                   Some (if valN rc =? 0 then [] else encode U8 rc ++ enc_vb (len P) ++ P)).
+      { cbn [run_enc run_enc1]. rewrite !run_list_eq, Erb. cbn [eval_cond]. fold (getN (M F_reasonCode) p).
+        change (getN (M F_reasonCode) p) with (valN rc).
+        destruct (valN rc =? 0); cbn [run_enc opt_app]; rewrite ?app_nil_r; reflexivity. }
+      destruct P; [rewrite E1|rewrite Erb]; cbn [opt_app]; rewrite ?app_nil_r; reflexivity. }
+    assert (Hcase : (P = [] /\ valN rc = 0) \/ run_enc vh p = Some (encode U8 rc ++ enc_vb (len P) ++ P)).
+    { rewrite Evh. destruct P; [|right; reflexivity]. destruct (N.eqb_spec (valN rc) 0) as [E|E];
+        [left; split; [reflexivity|exact E]|right; reflexivity]. }
+    destruct Hcase as [[EPv Erc]|Evh'].
+    - (* nothing after the header *)
+      exists [], fresh. rewrite Evh, EPv, Erc. cbn [N.eqb]. split; [reflexivity|]. split; [reflexivity|].
+      assert (Hnil : field_bytes p m = [] /\ ups_bytes (uprops p) = []).
+      { unfold P, section_bytes in EPv. apply app_eq_nil in EPv as [E1 E2].
+        apply app_eq_nil in E2 as [E2 _]. split; assumption. }
+      destruct Hnil as [Hfb Hub].
+      split; [|rewrite (ups_bytes_nil _ Hups Hub), Hfresh; reflexivity].
+      apply Forall_cons; [exact Efix|]. apply Forall_cons.
+      + unfold vagree. cbn [fst snd]. rewrite Hfresh. cbn [canon]. fold rc. rewrite Erc. reflexivity.
+      + unfold refs_of. rewrite Forall_map. apply Forall_forall. intros e Hin. unfold vagree. cbn [fst snd].
+        apply canon_zero.
+        * rewrite Hfresh. rewrite forallb_forall in Hnofx. specialize (Hnofx e Hin).
+          apply negb_true_iff in Hnofx.
+          assert (E : getf (eref e) (setf (M F_fixed) (VN (getN (M F_fixed) p)) zero_pkt) = VN 0).
+          { rewrite getf_setf.
+            destruct (fref_eqb (eref e) (M F_fixed)) eqn:E'.
+            - apply fref_eqb_true in E'. rewrite E', fref_eqb_refl in Hnofx. discriminate.
+            - destruct (eref e); reflexivity. }
+          rewrite E. destruct (ewt e); reflexivity.
+        * apply enc_prop_nil with (id := eid e). unfold field_bytes in Hfb.
+          apply in_split in Hin as [l1 [l2 ->]]. rewrite map_app, concat_app in Hfb.
+          apply app_eq_nil in Hfb as [_ Hfb]. cbn [map concat] in Hfb.
+          apply app_eq_nil in Hfb as [Hfb _]. exact Hfb.
+    - (* reason code, property length, properties *)
+      set (body := encode U8 rc ++ enc_vb (len P) ++ P) in *.
+      assert (HP : len P < 268435456).
+      { unfold remaining_ok in Hsize. rewrite Hbody, Evh' in Hsize. unfold body in Hsize.
+        rewrite !len_app in Hsize. lia. }
+      set (a1 := setf (M F_reasonCode) (canon U8 rc) fresh).
+      destruct (dget_at (M F_reasonCode) U8 rc fresh body 0 (enc_vb (len P) ++ P) 0)
+        as [D1 H1]; try discriminate; try assumption; try exact I.
+      { apply at_pos_0. }
+      fold a1 in D1.
+      destruct (dgetany_at m false NoSub p a1 body (0 + length (encode U8 rc)) [] 1)
+        as [st [D2 H2]]; try discriminate; try assumption; try exact I.
+      { fold P. rewrite app_nil_r. exact H1. }
+      fold P in D2, H2.
+      set (p' := section_result m false NoSub p a1) in *.
+      exists body, p'. split; [exact Evh'|]. split; [|split].
+      + assert (Hne : body <> []) by (unfold body; cbn [encode enc_u8 app]; discriminate).
+        destruct body as [|b0 body0] eqn:Eb; [congruence|]. rewrite <- Eb in *.
+        apply (unmarshal_of_run k _ _ _ (0 + length (encode U8 rc) + length (enc_vb (len P) ++ P)) st).
+        rewrite Hdec_of. rewrite (run_dec_cons _ _ _ _ D1), (run_dec_cons _ _ _ _ D2). reflexivity.
+      + apply Forall_cons; [|apply Forall_cons]; cbn [fst snd].
+        * apply section_agree_out; [exact Hnofx|]. unfold a1. rewrite getf_setf_other by reflexivity. exact Efix.
+        * apply section_agree_out; [exact Hnorc|]. unfold a1. rewrite getf_setf_same. apply canon_idem.
+        * apply section_agree_in; [exact Hm3|].
+          apply forallb_forall. intros e Hin.
+          rewrite forallb_forall in Hnofx, Hnorc. specialize (Hnofx e Hin). specialize (Hnorc e Hin).
+          apply negb_true_iff in Hnofx, Hnorc.
+          assert (E : getf (eref e) a1 = VN 0).
+          { unfold a1. rewrite Hfresh, !getf_setf.
+            destruct (fref_eqb (eref e) (M F_reasonCode)) eqn:E1.
+            - apply fref_eqb_true in E1. rewrite E1, fref_eqb_refl in Hnorc. discriminate.
+            - destruct (fref_eqb (eref e) (M F_fixed)) eqn:E2.
+              + apply fref_eqb_true in E2. rewrite E2, fref_eqb_refl in Hnofx. discriminate.
+              + destruct (eref e); reflexivity. }
+          rewrite E. destruct (ewt e); reflexivity.
+      + unfold p'. rewrite uprops_section_result. unfold a1. rewrite Hfresh. reflexivity.
+  Qed.
+End ReasonSection.
+
+Lemma fresh_plain k : k <> KUndefined -> k <> KPublish ->
+  fresh_pkt (b2n (n2b (ctor_fixed k))) = (k, setf (M F_fixed) (VN (ctor_fixed k)) zero_pkt).
+Proof. destruct k; try congruence; intros _ _; reflexivity. Qed.
+
+(* DISCONNECT *)
+Record dom_disconnect (p : pkt) : Prop := {
+  ddi_fixed : getN (M F_fixed) p = ctor_fixed KDisconnect;
+  ddi_fields : fields_valid [(M F_reasonCode, U8)] p;
+  ddi_ups : Forall up_ok (uprops p);
+  ddi_size : remaining_ok KDisconnect p
+}.
+
+Theorem disconnect_roundtrip p : dom_disconnect p -> roundtrip KDisconnect p.
+Proof.
+  intros [Hfx Hf Hups Hsize].
+  destruct (reason_section KDisconnect [] eq_refl eq_refl (conj eq_refl (conj eq_refl eq_refl)) eq_refl eq_refl
+              p _ eq_refl Hf Hups Hsize) as [body [p' [Evh [Hdec [Hag Hu]]]]].
+  rewrite Hfx in Hdec.
+  apply (roundtrip_intro KDisconnect p disconnect_vh body (setf (M F_fixed) (VN (ctor_fixed KDisconnect)) zero_pkt) p');
+    try discriminate; try assumption.
+  - reflexivity.
+  - rewrite Hfx. reflexivity.
+  - apply agree_all_of in Hag. cbn [agree_all getf refs_of map] in Hag. split_ands.
+    unfold snapshot, oN, oB, oS, getN, getB, getS, getf. rewrite Hu. rewrite_agree p'. reflexivity.
+  - intros es Hes. injection Hes as <-.
+    apply vagree_all_of in Hag. cbn [vagree_all refs_of map] in Hag. split_ands.
+    unfold enc_disconnect, disconnect_vh, disconnect_body, disconnect_props, up.
+    cbn [app encs_agree enc_agree live_agree cond_agree]. repeat split; assumption.
+Qed.
+
+(* AUTH *)
+Record dom_auth (p : pkt) : Prop := {
+  dau_fixed : getN (M F_fixed) p = ctor_fixed KAuth;
+  dau_fields : fields_valid ((M F_reasonCode, U8) :: refs_of auth_map) p;
+  dau_ups : Forall up_ok (uprops p);
+  dau_size : remaining_ok KAuth p
+}.
+
+Lemma auth_map_ok : forallb (entry_okb false) auth_map = true
+  /\ nodupb_N (map eid auth_map) = true /\ nodup_refs auth_map = true.
+Proof. vm_compute. repeat split. Qed.
+
+Theorem auth_roundtrip p : dom_auth p -> roundtrip KAuth p.
+Proof.
+  intros [Hfx Hf Hups Hsize].
+  destruct (reason_section KAuth auth_map eq_refl eq_refl auth_map_ok eq_refl eq_refl
+              p _ eq_refl Hf Hups Hsize) as [body [p' [Evh [Hdec [Hag Hu]]]]].
+  rewrite Hfx in Hdec.
+  apply (roundtrip_intro KAuth p auth_vh body (setf (M F_fixed) (VN (ctor_fixed KAuth)) zero_pkt) p');
+    try discriminate; try assumption.
+  - reflexivity.
+  - rewrite Hfx. reflexivity.
+  - apply agree_all_of in Hag. unfold refs_of, auth_map in Hag.
+    cbn [agree_all getf map eref ewt fst snd] in Hag. split_ands.
+    unfold snapshot, oN, oB, oS, getN, getB, getS, getf. rewrite Hu. rewrite_agree p'. reflexivity.
+  - intros es Hes. injection Hes as <-.
+    apply vagree_all_of in Hag. unfold refs_of, auth_map in Hag.
+    cbn [vagree_all map eref ewt fst snd] in Hag. split_ands.
+    unfold enc_auth, auth_vh, auth_body, auth_props, up.
+    cbn [app encs_agree enc_agree live_agree cond_agree]. repeat split; assumption.
+Qed.
+
+(* ------------------------------------------------------------------ *)
+(* SUBACK, UNSUBACK *)
+Lemma rcodes_loop_enc : forall l acc p0 d pos steps,
+  Forall (fun n => n < 256) l -> at_pos d pos (concat (map enc_u8 l)) ->
+  rcodes_loop (length l) acc (mk_state p0 d pos steps) =
+  Run (mk_state (set_rcodes p0 (acc ++ l)) d (pos + length l) (steps + length l)).
+Proof.
+  induction l as [|n l IH]; intros acc p0 d pos steps Hok Hat.
+  - cbn [length rcodes_loop]. rewrite app_nil_r, !Nat.add_0_r. reflexivity.
+  - inversion Hok as [|? ? Hn Hl]; subst. cbn [length rcodes_loop].
+    cbn [map concat] in Hat.
+    pose proof (at_pos_app d pos (enc_u8 n) _ Hat) as Hat'.
+    destruct Hat as [pre [E L]].
+    rewrite (get_val_encoded' U8 (VN n) (VN 0) (mk_state p0 d pos steps) pre (concat (map enc_u8 l)));
+      try discriminate; try assumption; try reflexivity; [|symmetry; exact L].
+    cbn [canon valN encode enc_u8 length dp ddata dpos dsteps mk_state].
+    change {| dp := p0; ddata := d; dpos := pos + 1; derr := None; dsteps := S steps |}
+      with (mk_state p0 d (pos + 1) (S steps)).
+    rewrite (IH (acc ++ [n]) p0 d (pos + 1)%nat (S steps) Hl Hat').
+    rewrite <- app_assoc. cbn [app]. unfold mk_state. do 2 f_equal; lia.
+Qed.
+
+Lemma dreasoncodes_at l p0 d pos steps :
+  Forall (fun n => n < 256) l -> at_pos d pos (concat (map enc_u8 l)) ->
+  run_dec1 DReasonCodes (mk_state p0 d pos steps) =
+  Run (mk_state (set_rcodes p0 l) d (pos + length l) (steps + length l)).
+Proof.
+  intros Hok Hat. cbn [run_dec1].
+  change (dpos (mk_state p0 d pos steps)) with pos. change (ddata (mk_state p0 d pos steps)) with d.
+  assert (Hlen : length d = (pos + length l)%nat).
+  { destruct Hat as [pre [E L]]. rewrite E, app_length, L. f_equal.
+    clear. induction l as [|n l IH]; [reflexivity|]. cbn [map concat length enc_u8 app]. rewrite IH. reflexivity. }
+  rewrite (proj2 (Nat.leb_le _ _)) by lia.
+  replace (length d - pos)%nat with (length l) by lia.
+  exact (rcodes_loop_enc l [] p0 d pos steps Hok Hat).
+Qed.
+
+Definition suback_fields : list (fref * wt) := [(M F_packetID, U16); (M F_reasonString, Bin)].
+
+Record dom_suback (k : kind) (p : pkt) : Prop := {
+  dsa_fixed : getN (M F_fixed) p = ctor_fixed k;
+  dsa_fields : fields_valid suback_fields p;
+  dsa_ups : Forall up_ok (uprops p);
+  dsa_codes : Forall (fun n => n < 256) (rcodes p);
+  dsa_size : remaining_ok k p
+}.
+
+Lemma suback_finish k p p' : is_suback k = true ->
+  Forall (fun rw => vagree (fst rw) (snd rw) p p') ((M F_fixed, U8) :: suback_fields) ->
+  uprops p' = uprops p -> rcodes p' = rcodes p ->
+  snapshot k p' = snapshot k p /\ (forall es, enc_of k = Some es -> encs_agree es p p').
+Proof.
+  intros Hk Hag Hu Hr. split.
+  - apply agree_all_of in Hag. unfold suback_fields in Hag. cbn [agree_all getf] in Hag. split_ands.
+    destruct k; try discriminate Hk; unfold snapshot, oN, oB, oS, getN, getB, getS, getf;
+      rewrite Hu, Hr; rewrite_agree p'; reflexivity.
+  - intros es Hes. assert (Henc_of : enc_of k = Some enc_suback) by (destruct k; try discriminate; reflexivity).
+    rewrite Henc_of in Hes. injection Hes as <-.
+    apply vagree_all_of in Hag. unfold suback_fields in Hag. cbn [vagree_all] in Hag. split_ands.
+    unfold enc_suback, suback_vh, suback_props, up. cbn [app encs_agree enc_agree live_agree].
+    repeat split; assumption.
+Qed.
+
+Theorem suback_roundtrip k p : is_suback k = true -> dom_suback k p -> roundtrip k p.
+Proof.
+  intros Hk [Hfx Hf Hups Hcodes Hsize].
+  assert (Hpid : valid_val U16 (getf (M F_packetID) p)) by (inversion Hf; assumption).
+  assert (Hm : fields_valid (refs_of ack_map) p) by (inversion Hf as [|? ? _ Hf1]; exact Hf1).
+  assert (Hok : Forall (entry_ok p) ack_map)
+    by (apply (entries_ok false); [apply ack_map_ok|discriminate|exact Hm]).
+  set (P := section_bytes ack_map false NoSub p).
+  assert (EP : run_enc suback_props p = Some P)
+    by (apply (run_enc_section ack_map false NoSub p Hok); discriminate).
+  assert (Hbody : body_of k = Some (suback_vh ++ [EReasonCodes])) by (destruct k; try discriminate; reflexivity).
+  assert (Hdec_of : dec_of k = dec_suback) by (destruct k; try discriminate; reflexivity).
+  assert (Hk1 : k <> KPingReq) by (intros ->; discriminate).
+  assert (Hk2 : k <> KPingResp) by (intros ->; discriminate).
+  set (fresh := setf (M F_fixed) (VN (ctor_fixed k)) zero_pkt).
+  assert (Hfresh : fresh_pkt (b2n (n2b (getN (M F_fixed) p))) = (k, fresh))
+    by (rewrite Hfx; apply fresh_plain; intros ->; discriminate).
+  set (pid := getf (M F_packetID) p) in *.
+  set (a1 := setf (M F_packetID) (canon U16 pid) fresh).
+  assert (Efix : canon U8 (getf (M F_fixed) fresh) = canon U8 (getf (M F_fixed) p)).
+  { cbn [canon]. fold (getN (M F_fixed) p). rewrite Hfx. reflexivity. }
+  set (RC := concat (map enc_u8 (rcodes p))).
+  set (body := encode U16 pid ++ enc_vb (len P) ++ P ++ RC).
+  assert (Evh : run_enc (suback_vh ++ [EReasonCodes]) p = Some body).
+  { unfold suback_vh. rewrite <- app_assoc. change (?a :: ?b :: ?c ++ ?d) with ([a; b] ++ c ++ d).
+    rewrite !run_enc_app, EP. cbn [run_enc]. rewrite run_enc1_vblen, EP.
+    cbn [run_enc1 getf_opt option_map opt_app]. unfold body, RC. rewrite ?app_nil_r, <- ?app_assoc. reflexivity. }
+  assert (HP : len P < 268435456).
+  { unfold remaining_ok in Hsize. rewrite Hbody, Evh in Hsize. unfold body in Hsize.
+    rewrite !len_app in Hsize. lia. }
+  destruct (dget_at (M F_packetID) U16 pid fresh body 0 (enc_vb (len P) ++ P ++ RC) 0)
+    as [D1 H1]; try discriminate; try assumption; try exact I.
+  { apply at_pos_0. }
+  fold a1 in D1.
+  destruct (dgetany_at ack_map false NoSub p a1 body (0 + length (encode U16 pid)) RC 1)
+    as [st [D2 H2]]; try discriminate; try assumption; try apply ack_map_ok; try exact I.
+  fold P in D2, H2.
+  set (a2 := section_result ack_map false NoSub p a1) in *.
+  pose proof (dreasoncodes_at (rcodes p) a2 body _ st Hcodes H2) as D3.
+  set (p' := set_rcodes a2 (rcodes p)) in *.
+  destruct (suback_finish k p p' Hk) as [Hs Ha].
+  { assert (Hag : Forall (fun rw => vagree (fst rw) (snd rw) p a2) ((M F_fixed, U8) :: suback_fields)).
+    { apply Forall_cons; [|apply Forall_cons]; cbn [fst snd].
+      - apply section_agree_out; [vm_compute; reflexivity|exact Efix].
+      - apply section_agree_out; [vm_compute; reflexivity|apply canon_idem].
+      - apply section_agree_in; [apply ack_map_ok|vm_compute; reflexivity]. }
+    exact Hag. }
+  { unfold p'. cbn [uprops set_rcodes]. unfold a2. rewrite uprops_section_result. reflexivity. }
+  { reflexivity. }
+  apply (roundtrip_intro k p (suback_vh ++ [EReasonCodes]) body fresh p'); try assumption.
+  assert (Hne : body <> []) by (unfold body; cbn [encode enc_u16 app]; discriminate).
+  destruct body as [|b0 body0] eqn:Eb; [congruence|]. rewrite <- Eb in *.
+  eapply unmarshal_of_run.
+  rewrite Hdec_of. unfold dec_suback.
+  rewrite (run_dec_cons _ _ _ _ D1), (run_dec_cons _ _ _ _ D2), (run_dec_cons _ _ _ _ D3). reflexivity.
+Qed.
+
+(* ------------------------------------------------------------------ *)
+(* PINGREQ, PINGRESP *)
+Theorem ping_roundtrip k p : (k = KPingReq \/ k = KPingResp) ->
+  getN (M F_fixed) p = ctor_fixed k -> roundtrip k p.
+Proof.
+  intros Hk Hfx. exists [], (setf (M F_fixed) (VN (ctor_fixed k)) zero_pkt).
+  assert (He : enc_of k = Some enc_ping) by (destruct Hk as [-> | ->]; reflexivity).
+  split; [|split; [|split]].
+  - unfold encode_pkt. rewrite He. apply ping_frame.
+  - unfold decode_frame. rewrite Hfx. destruct Hk as [-> | ->]; reflexivity.
+  - destruct Hk as [-> | ->]; reflexivity.
+  - unfold encode_pkt. rewrite He, !ping_frame. rewrite Hfx. destruct Hk as [-> | ->]; reflexivity.
+Qed.
+
+(* ------------------------------------------------------------------ *)
+(* topic filter loops of UNSUBSCRIBE and SUBSCRIBE *)
+Lemma set_ufilters_same p0 : set_ufilters p0 (ufilters p0) = p0.
+Proof. destruct p0; reflexivity. Qed.
+Lemma set_filters_same p0 : set_filters p0 (filters p0) = p0.
+Proof. destruct p0; reflexivity. Qed.
+
+Lemma at_end_true p0 d pos steps : at_pos d pos [] -> at_end (mk_state p0 d pos steps) = true.
+Proof. intros H. apply at_pos_end in H. unfold at_end, mk_state. cbn [dpos ddata]. apply Nat.eqb_eq. exact H. Qed.
+Lemma at_end_false p0 d pos steps x r : at_pos d pos (x :: r) -> at_end (mk_state p0 d pos steps) = false.
+Proof. intros H. apply at_pos_more in H. unfold at_end, mk_state. cbn [dpos ddata]. apply Nat.eqb_neq. lia. Qed.
+
+Lemma enc_bin_cons s : exists x r, enc_bin s = x :: r.
+Proof. unfold enc_bin, enc_u16. cbn [app]. eexists. eexists. reflexivity. Qed.
+
+Lemma ufilter_loop_enc : forall l fuel p0 d pos steps,
+  Forall (fun f => len f < 65536) l -> at_pos d pos (concat (map enc_bin l)) ->
+  (length l < fuel)%nat ->
+  ufilter_loop fuel (mk_state p0 d pos steps) =
+  Run (mk_state (set_ufilters p0 (ufilters p0 ++ l)) d (length d) (steps + length l)).
+Proof.
+  induction l as [|f l IH]; intros fuel p0 d pos steps Hok Hat Hfuel.
+  - destruct fuel as [|fuel]; [lia|]. cbn [ufilter_loop map concat] in *.
+    rewrite (at_end_true _ _ _ _ Hat). rewrite app_nil_r, set_ufilters_same, Nat.add_0_r.
+    rewrite (at_pos_end _ _ Hat). reflexivity.
+  - inversion Hok as [|? ? Hf Hl]; subst. destruct fuel as [|fuel]; [cbn in Hfuel; lia|].
+    cbn [ufilter_loop]. cbn [map concat] in Hat.
+    destruct (enc_bin_cons f) as [x [r Ex]].
+    assert (Hne : at_end (mk_state p0 d pos steps) = false).
+    { apply (at_end_false _ _ _ _ x (r ++ concat (map enc_bin l))). rewrite Ex in Hat. exact Hat. }
+    rewrite Hne.
+    pose proof (at_pos_app d pos (enc_bin f) _ Hat) as Hat'.
+    destruct Hat as [pre [E L]].
+    rewrite (get_val_encoded' Bin (VS f) (VS []) (mk_state p0 d pos steps) pre (concat (map enc_bin l)));
+      try discriminate; try assumption; try reflexivity; [| |symmetry; exact L].
+    2:{ intros _. right. reflexivity. }
+    cbn [canon valS encode dp ddata dpos dsteps derr mk_state with_pkt].
+    change (with_pkt (set_ufilters p0 (ufilters p0 ++ [f]))
+              {| dp := p0; ddata := d; dpos := pos + length (enc_bin f); derr := None; dsteps := S steps |})
+      with (mk_state (set_ufilters p0 (ufilters p0 ++ [f])) d (pos + length (enc_bin f)) (S steps)).
+    destruct l as [|f' l'].
+    + cbn [map concat] in Hat'. rewrite (at_end_true (set_ufilters p0 (ufilters p0 ++ [f])) d _ (S steps) Hat').
+      rewrite (at_pos_end _ _ Hat'). cbn [length]. unfold mk_state. do 2 f_equal. lia.
+    + destruct (enc_bin_cons f') as [x' [r' Ex']].
+      assert (Hne' : at_end (mk_state (set_ufilters p0 (ufilters p0 ++ [f])) d (pos + length (enc_bin f)) (S steps)) = false).
+      { apply (at_end_false _ _ _ _ x' (r' ++ concat (map enc_bin l'))).
+        cbn [map concat] in Hat'. rewrite Ex' in Hat'. exact Hat'. }
+      rewrite Hne'. rewrite (IH fuel _ d _ (S steps) Hl Hat'); [|cbn [length] in *; lia].
+      cbn [ufilters set_ufilters]. rewrite <- app_assoc. cbn [app length].
+      unfold mk_state. do 2 f_equal. lia.
+Qed.
+
+Lemma concat_enc_bin_len l : (length l <= length (concat (map enc_bin l)))%nat.
+Proof.
+  induction l as [|f l IH]; [cbn; lia|]. cbn [map concat length]. rewrite app_length, enc_bin_length. lia.
+Qed.
+
+Lemma dunsubfilters_at l p0 d pos steps :
+  Forall (fun f => len f < 65536) l -> at_pos d pos (concat (map enc_bin l)) ->
+  run_dec1 DUnsubFilterLoop (mk_state p0 d pos steps) =
+  Run (mk_state (set_ufilters p0 (ufilters p0 ++ l)) d (length d) (steps + length l)).
+Proof.
+  intros Hok Hat. cbn [run_dec1]. change (ddata (mk_state p0 d pos steps)) with d.
+  apply ufilter_loop_enc; try assumption.
+  pose proof (concat_enc_bin_len l). destruct Hat as [pre [E L]]. rewrite E, app_length. lia.
+Qed.
+
+Definition filter_ok (f : list byte * N) : Prop := len (fst f) < 65536 /\ snd f < 256.
+
+Lemma filter_loop_enc : forall l fuel p0 d pos steps,
+  Forall filter_ok l -> at_pos d pos (concat (map enc_filter l)) ->
+  (length l < fuel)%nat ->
+  filter_loop fuel (mk_state p0 d pos steps) =
+  Run (mk_state (set_filters p0 (filters p0 ++ l)) d (length d) (steps + 2 * length l)).
+Proof.
+  induction l as [|[f o] l IH]; intros fuel p0 d pos steps Hok Hat Hfuel.
+  - destruct fuel as [|fuel]; [lia|]. cbn [filter_loop map concat] in *.
+    rewrite (at_end_true _ _ _ _ Hat). rewrite app_nil_r, set_filters_same. cbn [length]. rewrite Nat.add_0_r.
+    rewrite (at_pos_end _ _ Hat). reflexivity.
+  - inversion Hok as [|? ? [Hf Ho] Hl]; subst. cbn [fst snd] in *.
+    destruct fuel as [|fuel]; [cbn in Hfuel; lia|].
+    cbn [filter_loop]. cbn [map concat] in Hat. unfold enc_filter at 1 in Hat. cbn [fst snd] in Hat.
+    rewrite <- app_assoc in Hat.
+    destruct (enc_bin_cons f) as [x [r Ex]].
+    assert (Hne : at_end (mk_state p0 d pos steps) = false).
+    { apply (at_end_false _ _ _ _ x (r ++ enc_u8 o ++ concat (map enc_filter l))). rewrite Ex in Hat. exact Hat. }
+    rewrite Hne.
+    pose proof (at_pos_app d pos (enc_bin f) _ Hat) as Hat1.
+    pose proof (at_pos_app d _ (enc_u8 o) _ Hat1) as Hat2.
+    destruct Hat as [pre [E L]].
+    rewrite (get_val_encoded' Bin (VS f) (VS []) (mk_state p0 d pos steps) pre (enc_u8 o ++ concat (map enc_filter l)));
+      try discriminate; try assumption; try reflexivity; [| |symmetry; exact L].
+    2:{ intros _. right. reflexivity. }
+    cbn [canon valS encode dp ddata dpos dsteps derr mk_state].
+    destruct Hat1 as [pre1 [E1 L1]].
+    rewrite (get_val_encoded' U8 (VN o) (VN 0)
+               {| dp := p0; ddata := d; dpos := pos + length (enc_bin f); derr := None; dsteps := S steps |}
+               pre1 (concat (map enc_filter l)));
+      try discriminate; try assumption; try reflexivity; [|symmetry; exact L1].
+    cbn [canon valN encode enc_u8 length dp ddata dpos dsteps derr].
+    change (with_pkt (set_filters p0 (filters p0 ++ [(f, o)]))
+             {| dp := p0; ddata := d; dpos := pos + length (enc_bin f) + 1; derr := None; dsteps := S (S steps) |})
+      with (mk_state (set_filters p0 (filters p0 ++ [(f, o)])) d (pos + length (enc_bin f) + 1) (S (S steps))).
+    cbn [enc_u8 length] in Hat2.
+    destruct l as [|[f' o'] l'].
+    + cbn [map concat] in Hat2. rewrite (at_end_true (set_filters p0 (filters p0 ++ [(f, o)])) d _ (S (S steps)) Hat2).
+      rewrite (at_pos_end _ _ Hat2). cbn [length]. unfold mk_state. cbn [derr]. do 2 f_equal. lia.
+    + destruct (enc_bin_cons f') as [x' [r' Ex']].
+      assert (Hne' : at_end (mk_state (set_filters p0 (filters p0 ++ [(f, o)])) d
+                                      (pos + length (enc_bin f) + 1) (S (S steps))) = false).
+      { apply (at_end_false _ _ _ _ x' (r' ++ enc_u8 o' ++ concat (map enc_filter l'))).
+        cbn [map concat] in Hat2. unfold enc_filter at 1 in Hat2. cbn [fst snd] in Hat2.
+        rewrite <- app_assoc, Ex' in Hat2. exact Hat2. }
+      rewrite Hne'. change (derr (mk_state (set_filters p0 (filters p0 ++ [(f, o)])) d
+                                     (pos + length (enc_bin f) + 1) (S (S steps)))) with (@None err).
+      cbv iota. rewrite (IH fuel _ d _ (S (S steps)) Hl Hat2); [|cbn [length] in *; lia].
+      cbn [filters set_filters]. rewrite <- app_assoc. cbn [app length].
+      unfold mk_state. do 2 f_equal. lia.
+Qed.
+
+Lemma concat_enc_filter_len l : (length l <= length (concat (map enc_filter l)))%nat.
+Proof.
+  induction l as [|f l IH]; [cbn; lia|]. cbn [map concat length]. unfold enc_filter at 1.
+  rewrite !app_length, enc_bin_length. lia.
+Qed.
+
+Lemma dfilters_at l p0 d pos steps :
+  Forall filter_ok l -> at_pos d pos (concat (map enc_filter l)) ->
+  run_dec1 DFilterLoop (mk_state p0 d pos steps) =
+  Run (mk_state (set_filters p0 (filters p0 ++ l)) d (length d) (steps + 2 * length l)).
+Proof.
+  intros Hok Hat. cbn [run_dec1]. change (ddata (mk_state p0 d pos steps)) with d.
+  apply filter_loop_enc; try assumption.
+  pose proof (concat_enc_filter_len l). destruct Hat as [pre [E L]]. rewrite E, app_length. lia.
+Qed.
+
+(* ------------------------------------------------------------------ *)
+(* UNSUBSCRIBE *)
+Record dom_unsubscribe (p : pkt) : Prop := {
+  dun_fixed : getN (M F_fixed) p = ctor_fixed KUnsubscribe;
+  dun_fields : fields_valid [(M F_packetID, U16)] p;
+  dun_ups : Forall up_ok (uprops p);
+  dun_filters : Forall (fun f => len f < 65536) (ufilters p);
+  dun_size : remaining_ok KUnsubscribe p
+}.
+
+Theorem unsubscribe_roundtrip p : dom_unsubscribe p -> roundtrip KUnsubscribe p.
+Proof.
+  intros [Hfx Hf Hups Hfil Hsize].
+  assert (Hpid : valid_val U16 (getf (M F_packetID) p)) by (inversion Hf; assumption).
+  set (P := section_bytes [] false NoSub p).
+  assert (EP : run_enc [up] p = Some P)
+    by (apply (run_enc_section [] false NoSub p); [constructor|discriminate]).
+  set (fresh := setf (M F_fixed) (VN (ctor_fixed KUnsubscribe)) zero_pkt).
+  assert (Hfresh : fresh_pkt (b2n (n2b (getN (M F_fixed) p))) = (KUnsubscribe, fresh))
+    by (rewrite Hfx; reflexivity).
+  set (pid := getf (M F_packetID) p) in *.
+  set (a1 := setf (M F_packetID) (canon U16 pid) fresh).
+  assert (Efix : canon U8 (getf (M F_fixed) fresh) = canon U8 (getf (M F_fixed) p)).
+  { cbn [canon]. fold (getN (M F_fixed) p). rewrite Hfx. reflexivity. }
+  set (FB := concat (map enc_bin (ufilters p))).
+  set (body := encode U16 pid ++ enc_vb (len P) ++ P ++ FB).
+  assert (Evh : run_enc (unsubscribe_vh ++ [EUnsubFilters]) p = Some body).
+  { unfold unsubscribe_vh. change ([?a; ?b; up] ++ ?d) with ([a; b] ++ [up] ++ d).
+    rewrite !run_enc_app, EP. cbn [run_enc]. rewrite run_enc1_vblen, EP.
+    cbn [run_enc1 getf_opt option_map opt_app]. unfold body, FB. rewrite ?app_nil_r, <- ?app_assoc. reflexivity. }
+  assert (HP : len P < 268435456).
+  { unfold remaining_ok in Hsize. cbn [body_of] in Hsize. rewrite Evh in Hsize. unfold body in Hsize.
+    rewrite !len_app in Hsize. lia. }
+  destruct (dget_at (M F_packetID) U16 pid fresh body 0 (enc_vb (len P) ++ P ++ FB) 0)
+    as [D1 H1]; try discriminate; try assumption; try exact I.
+  { apply at_pos_0. }
+  fold a1 in D1.
+  destruct (dgetany_at [] false NoSub p a1 body (0 + length (encode U16 pid)) FB 1)
+    as [st [D2 H2]]; try discriminate; try assumption; try reflexivity; try exact I.
+  { constructor. }
+  fold P in D2, H2.
+  set (a2 := section_result [] false NoSub p a1) in *.
+  pose proof (dunsubfilters_at (ufilters p) a2 body _ st Hfil H2) as D3.
+  assert (Huf : ufilters a2 = []).
+  { unfold a2. destruct (others_section_result [] false NoSub p a1) as [_ [_ [_ [E _]]]]. rewrite E. reflexivity. }
+  rewrite Huf in D3. cbn [app] in D3.
+  set (p' := set_ufilters a2 (ufilters p)) in *.
+  assert (Hag : Forall (fun rw => vagree (fst rw) (snd rw) p p') [(M F_fixed, U8); (M F_packetID, U16)]).
+  { apply Forall_cons; [|apply Forall_cons; [|apply Forall_nil]]; unfold vagree; cbn [fst snd].
+    - exact Efix.
+    - apply canon_idem. }
+  assert (Hu : uprops p' = uprops p).
+  { unfold p'. cbn [uprops set_ufilters]. unfold a2. rewrite uprops_section_result. reflexivity. }
+  assert (Hf' : ufilters p' = ufilters p) by reflexivity.
+  clearbody p'.
+  apply (roundtrip_intro KUnsubscribe p (unsubscribe_vh ++ [EUnsubFilters]) body fresh p');
+    try discriminate; try assumption; try reflexivity.
+  - assert (Hne : body <> []) by (unfold body; cbn [encode enc_u16 app]; discriminate).
+    destruct body as [|b0 body0] eqn:Eb; [congruence|]. rewrite <- Eb in *.
+    eapply unmarshal_of_run. cbn [dec_of]. unfold dec_unsubscribe.
+    rewrite (run_dec_cons _ _ _ _ D1), (run_dec_cons _ _ _ _ D2), (run_dec_cons _ _ _ _ D3). reflexivity.
+  - apply agree_all_of in Hag. cbn [agree_all getf] in Hag. split_ands.
+    unfold snapshot, oN, oB, oS, getN, getB, getS, getf. rewrite Hu, Hf'. rewrite_agree p'. reflexivity.
+  - intros es Hes. injection Hes as <-.
+    apply vagree_all_of in Hag. cbn [vagree_all] in Hag. split_ands.
+    unfold enc_unsubscribe, unsubscribe_vh, up. cbn [app encs_agree enc_agree live_agree].
+    repeat split; assumption.
+Qed.
+
+(* ------------------------------------------------------------------ *)
+(* SUBSCRIBE *)
+Lemma dgetany_subopt_at p acc d pos rest steps :
+  subopt_ok (subid p) -> Forall up_ok (uprops p) ->
+  let P := subopt_bytes (subid p) ++ ups_bytes (uprops p) in
+  len P < 268435456 ->
+  at_pos d pos (enc_vb (len P) ++ P ++ rest) ->
+  exists steps',
+    run_dec1 (DGetAny [] false SubOpt) (mk_state acc d pos steps) =
+      Run (mk_state (append_ups false (uprops p) (subopt_result (subid p) acc)) d
+                    (pos + length (enc_vb (len P) ++ P)) steps')
+    /\ at_pos d (pos + length (enc_vb (len P) ++ P)) rest.
+Proof.
+  intros Hso Hups P HP Hat.
+  assert (Hat' : at_pos d (pos + length (enc_vb (len P) ++ P)) rest)
+    by (apply at_pos_app; rewrite <- app_assoc; exact Hat).
+  destruct Hat as [pre [E L]]. subst pos.
+  destruct (getany_subopt p acc pre rest steps Hso Hups HP) as [st D]. cbv zeta in D. fold P in D.
+  exists st. split; [|exact Hat']. cbn [run_dec1]. rewrite E, D. rewrite app_length.
+  unfold mk_state. do 2 f_equal. lia.
+Qed.
+
+Record dom_subscribe (p : pkt) : Prop := {
+  dsu_fixed : getN (M F_fixed) p = ctor_fixed KSubscribe;
+  dsu_fields : fields_valid [(M F_packetID, U16)] p;
+  dsu_subid : subopt_ok (subid p);
+  dsu_ups : Forall up_ok (uprops p);
+  dsu_filters : Forall filter_ok (filters p);
+  dsu_size : remaining_ok KSubscribe p
+}.
+
+Theorem subscribe_roundtrip p : dom_subscribe p -> roundtrip KSubscribe p.
+Proof.
+  intros [Hfx Hf Hso Hups Hfil Hsize].
+  assert (Hpid : valid_val U16 (getf (M F_packetID) p)) by (inversion Hf; assumption).
+  set (P := subopt_bytes (subid p) ++ ups_bytes (uprops p)).
+  assert (EP : run_enc subscribe_props p = Some P).
+  { unfold subscribe_props, up. cbn [run_enc run_enc1]. unfold P, subopt_bytes, ups_bytes.
+    destruct (subid p); cbn [opt_app]; rewrite ?app_nil_r; reflexivity. }
+  set (fresh := setf (M F_fixed) (VN (ctor_fixed KSubscribe)) zero_pkt).
+  assert (Hfresh : fresh_pkt (b2n (n2b (getN (M F_fixed) p))) = (KSubscribe, fresh))
+    by (rewrite Hfx; reflexivity).
+  set (pid := getf (M F_packetID) p) in *.
+  set (a1 := setf (M F_packetID) (canon U16 pid) fresh).
+  assert (Efix : canon U8 (getf (M F_fixed) fresh) = canon U8 (getf (M F_fixed) p)).
+  { cbn [canon]. fold (getN (M F_fixed) p). rewrite Hfx. reflexivity. }
+  set (FB := concat (map enc_filter (filters p))).
+  set (body := encode U16 pid ++ enc_vb (len P) ++ P ++ FB).
+  assert (Evh : run_enc (subscribe_vh ++ [EFilters]) p = Some body).
+  { unfold subscribe_vh. rewrite <- app_assoc. change (?a :: ?b :: ?c ++ ?d) with ([a; b] ++ c ++ d).
+    rewrite !run_enc_app, EP. cbn [run_enc]. rewrite run_enc1_vblen, EP.
+    cbn [run_enc1 getf_opt option_map opt_app]. unfold body, FB. rewrite ?app_nil_r, <- ?app_assoc. reflexivity. }
+  assert (HP : len P < 268435456).
+  { unfold remaining_ok in Hsize. cbn [body_of] in Hsize. rewrite Evh in Hsize. unfold body in Hsize.
+    rewrite !len_app in Hsize. lia. }
+  destruct (dget_at (M F_packetID) U16 pid fresh body 0 (enc_vb (len P) ++ P ++ FB) 0)
+    as [D1 H1]; try discriminate; try assumption; try exact I.
+  { apply at_pos_0. }
+  fold a1 in D1.
+  destruct (dgetany_subopt_at p a1 body (0 + length (encode U16 pid)) FB 1 Hso Hups HP H1)
+    as [st [D2 H2]].
+  fold P in D2, H2.
+  set (a2 := append_ups false (uprops p) (subopt_result (subid p) a1)) in *.
+  pose proof (dfilters_at (filters p) a2 body _ st Hfil H2) as D3.
+  assert (Hfa : filters a2 = []) by (unfold a2, append_ups, subopt_result; destruct (subid p); reflexivity).
+  rewrite Hfa in D3. cbn [app] in D3.
+  set (p' := set_filters a2 (filters p)) in *.
+  assert (Hag : Forall (fun rw => vagree (fst rw) (snd rw) p p') [(M F_fixed, U8); (M F_packetID, U16)]).
+  { apply Forall_cons; [|apply Forall_cons; [|apply Forall_nil]]; unfold vagree; cbn [fst snd];
+      unfold p', a2, append_ups, subopt_result; destruct (subid p).
+    - exact Efix.
+    - exact Efix.
+    - apply canon_idem.
+    - apply canon_idem. }
+  assert (Hu : uprops p' = uprops p).
+  { unfold p', a2, append_ups, subopt_result. destruct (subid p); reflexivity. }
+  assert (Hsi : subid p' = subid p).
+  { unfold p', a2, append_ups, subopt_result. destruct (subid p); reflexivity. }
+  assert (Hf' : filters p' = filters p) by reflexivity.
+  clearbody p'.
+  apply (roundtrip_intro KSubscribe p (subscribe_vh ++ [EFilters]) body fresh p');
+    try discriminate; try assumption; try reflexivity.
+  - assert (Hne : body <> []) by (unfold body; cbn [encode enc_u16 app]; discriminate).
+    destruct body as [|b0 body0] eqn:Eb; [congruence|]. rewrite <- Eb in *.
+    eapply unmarshal_of_run. cbn [dec_of]. unfold dec_subscribe.
+    rewrite (run_dec_cons _ _ _ _ D1), (run_dec_cons _ _ _ _ D2), (run_dec_cons _ _ _ _ D3). reflexivity.
+  - apply agree_all_of in Hag. cbn [agree_all getf] in Hag. split_ands.
+    unfold snapshot, oN, oB, oS, getN, getB, getS, getf. rewrite Hu, Hf', Hsi. rewrite_agree p'. reflexivity.
+  - intros es Hes. injection Hes as <-.
+    apply vagree_all_of in Hag. cbn [vagree_all] in Hag. split_ands.
+    unfold enc_subscribe, subscribe_vh, subscribe_props, up. cbn [app encs_agree enc_agree live_agree].
+    repeat split; assumption.
+Qed.
